@@ -145,3 +145,39 @@ def scoped(c):
     externals(sc)
     c.scope = sc
     return c
+
+
+# --------------------------------------------------------------------------------------------------------------------
+# C08: the timer primitives every Wait / Task timeout / retry delay goes through (Connection.set_timeout / clear_timeout,
+# both transports): the callback is armed once, for exactly delay/1000 seconds (never less; a negative delay is zero),
+# and clearing removes exactly the timer that was named.
+# --------------------------------------------------------------------------------------------------------------------
+def timer_contracts(which):
+    later = {"asyncio": "self.connection._adapter_call_later", "blocking": "self.connection.call_later"}[which]
+    remove = {"asyncio": "self.connection._adapter_remove_timeout", "blocking": "self.connection.remove_timeout"}[which]
+
+    def scope():
+        sc = Registry()
+        for g, t in (("n_later", "int"), ("later_delay", "val"), ("later_cb", "val"), ("later_id", "val"), ("n_remove", "int"), ("remove_id", "val")):
+            sc.ghost(g, t)
+        sc.external(later, ["delay", "callback"], modifies=None, result_type="fn",
+                    ghost={"n_later": "n_later + 1", "later_delay": "delay", "later_cb": "callback", "later_id": "result"})
+        sc.external(remove, ["timeout_id"], modifies=None, result_type="none", ghost={"n_remove": "n_remove + 1", "remove_id": "timeout_id"})
+        return sc
+    a = Contract(
+        AMQP[which] + "Connection.set_timeout", types={"self": "obj", "callback": "any", "delay": "num"},
+        requires=["isobj(self.connection)"],
+        ensures=[
+            ("C08:armed-once-with-this-callback", "n_later == old(n_later) + 1 and same(later_cb, callback) and same(result, later_id)"),
+            ("C08:never-early", "isnum(later_delay) and real(later_delay) * 1000 == (real(delay) if real(delay) >= 0 else 0)"),
+            ("C08:nothing-cleared", "n_remove == old(n_remove)"),
+        ],
+        raises={}, modifies=None)
+    a.scope = scope()
+    b = Contract(
+        AMQP[which] + "Connection.clear_timeout", types={"self": "obj", "timeout_id": "any"},
+        requires=["isobj(self.connection)"],
+        ensures=[("C08:clears-exactly-the-named-timer", "n_remove == old(n_remove) + 1 and same(remove_id, timeout_id) and n_later == old(n_later)")],
+        raises={}, modifies=None)
+    b.scope = scope()
+    return [a, b]
